@@ -8,6 +8,9 @@ import (
 	"github.com/cloudflare/pat-go/tokens/type3"
 )
 
+var c20envs = map[string]*t3Env{}
+var c20client = type3.NewRateLimitedClientFromSecret(bytes.Repeat([]byte{0x11}, 48))
+
 func init() {
 	props["C20"] = runC20
 	replayers["c20.pad"] = func(c *Ctx, a []string) string {
@@ -25,8 +28,12 @@ func init() {
 			regs = append(regs, string(x))
 		}
 		reseedRand(c.Seed, "c20.e2e:"+a[0])
-		env := newT3Env(0, regs...)
-		cl := type3.NewRateLimitedClientFromSecret(bytes.Repeat([]byte{0x11}, 48))
+		env, ok := c20envs[a[1]]
+		if !ok {
+			env = newT3Env(0, regs...)
+			c20envs[a[1]] = env
+		}
+		cl := c20client
 		st, err := cl.CreateTokenRequest([]byte("challenge"), bytes.Repeat([]byte{7}, 32), bytes.Repeat([]byte{0x22}, 48),
 			env.issuer.TokenKeyID(), env.issuer.TokenKey(), name, env.issuer.NameKey())
 		if err != nil {
